@@ -210,6 +210,9 @@ type Walker struct {
 	Start     *ssa.BasicBlock
 	Paths     []*Path
 	Truncated bool
+	// PhiNames gives loop-header phis a role name that does not depend on the
+	// source variable's name (so renaming a local leaves every verdict unchanged)
+	PhiNames map[*ssa.Phi]string
 	// NoFork: do not fork on select arms (treat select as one effect, index symbolic)
 }
 
@@ -404,10 +407,17 @@ func structFieldName(t types.Type, i int) string {
 	return st.Field(i).Name()
 }
 
+func (w *Walker) phiName(p *ssa.Phi) string {
+	if n, ok := w.PhiNames[p]; ok {
+		return n
+	}
+	return p.Comment
+}
+
 func (w *Walker) compute(s *State, fr *frame, v ssa.Value, useMem bool) *Term {
 	switch v := v.(type) {
 	case *ssa.Phi:
-		return &Term{K: "phi", S: v.Comment, V: v}
+		return &Term{K: "phi", S: w.phiName(v), V: v}
 	case *ssa.Alloc:
 		if v.Heap {
 			return &Term{K: "alloc", S: v.Comment, V: v, ID: v.Name()}
@@ -772,7 +782,7 @@ func (w *Walker) walkFrom(s *State, fr *frame, b *ssa.BasicBlock, idx int, pred 
 					if !ok {
 						break
 					}
-					next[phi.Comment] = w.eval(s, fr, phi.Edges[pi])
+					next[w.phiName(phi)] = w.eval(s, fr, phi.Edges[pi])
 				}
 			}
 			w.endPath(s, PathEnd{Kind: "stop", Block: b, From: pred}, next)
@@ -813,7 +823,7 @@ func (w *Walker) walkFrom(s *State, fr *frame, b *ssa.BasicBlock, idx int, pred 
 				if !ok {
 					break
 				}
-				s.val[phi] = &Term{K: "phi", S: phi.Comment, V: phi}
+				s.val[phi] = &Term{K: "phi", S: w.phiName(phi), V: phi}
 			}
 		}
 	}
